@@ -41,6 +41,7 @@ type N struct {
 	How   string          `json:"how"`
 	SetR  bool            `json:"setr"`
 	Kind  string          `json:"kind"`
+	ID    int             `json:"id"`
 }
 
 type Case struct {
@@ -289,7 +290,7 @@ func (r *rend) stmt(s *N) {
 	case "iop":
 		r.line("arr[%s] += %s", idx(s.I), Expr(s.E))
 	case "print":
-		r.line("fmt.Println(\"p\", %s)", Expr(s.E))
+		r.line("fmt.Println(\"p\", %d, %s)", s.ID, Expr(s.E))
 	case "printg":
 		r.line("fmt.Println(\"g\", g0, g1, t.a, t.b, arr[0], arr[1])")
 	case "discard":
